@@ -433,6 +433,10 @@ def run(ctx):
                 ">64-bit literal, or the module holds another constant that is == but differs in type/sign; distinct by "
                 "(expression text, access path)" % K)
     ctx.assumptions = ["CPython 3.12 evaluating the same source text is the reference",
+                       "not generated (other properties' subjects, findings recorded there): float operands of // and % (C06), "
+                       "0 ** negative and float-overflowing ** (C07)",
+                       "an expression on which CPython raises and which the compiler refuses statically is counted, not judged "
+                       "(no run-time value exists; C43 judges rejections)",
                        "identity (is) of constants is not compared - only type and value",
                        "exception messages are not compared (types only)"]
 
